@@ -1,12 +1,23 @@
 """C06 — the aperture keeps a partitioned, bounded, load-tracking active subset: the real
-ApertureBalancerSink (virtual clock driving MonoClock/Ema) vs Model/Aperture.lean; spec `specC06`."""
+ApertureBalancerSink (virtual clock driving MonoClock/Ema; the wall clock MonoClock reads can be stepped
+backwards by the script) vs Model/Aperture.lean + Model/Ema.lean (MonoClock, Ema); spec `specC06`."""
 import lbrun
 
 PROPERTY = 'C06'
 COMPONENT = 'aperture'
 QUICK = dict(gen=1800)
 THOROUGH = dict(gen=20000)
-SOURCE_IMPORTS = ['ScalesModel.Model.Aperture']
+SOURCE_IMPORTS = ['ScalesModel.Model.Aperture', 'ScalesModel.Proofs.EmaLemmas']
+_SAMPLE_OBLIGATION = (
+    'theorem genSample_eq (last now : Int) :\n'
+    '    ((genSampleRet last now : Int) : Rat) = Scales.MonoClock.sample (last : Rat) (now : Rat) ∧\n'
+    '    ((genSampleLast last now : Int) : Rat) = Scales.MonoClock.sample (last : Rat) (now : Rat) := by\n'
+    '  unfold genSampleRet genSampleLast Scales.MonoClock.sample\n'
+    '  have h : ((now : Rat) - (last : Rat) > 0) ↔ (now - last > (0 : Int)) := by\n'
+    '    rw [gt_iff_lt, gt_iff_lt, ← Int.cast_sub]; exact Int.cast_pos\n'
+    '  by_cases hc : now - last > (0 : Int)\n'
+    '  · rw [if_pos hc, if_pos (h.2 hc)]; exact ⟨rfl, rfl⟩\n'
+    '  · rw [if_neg hc, if_neg (fun x => hc (h.1 x))]; exact ⟨rfl, rfl⟩\n')
 # the three-way decision of `_AdjustAperture`, translated from the current source on every run (harness/pytrans.py);
 # the obligation: the model's `AS.decision` is that decision applied to the model state, for every state and load
 SOURCE_SITES = [
@@ -17,19 +28,33 @@ SOURCE_SITES = [
                  'self._min_size': 'mn'},
          params=['load : Rat', 'maxl : Rat', 'minl : Rat', 'hasIdle : Bool', 'size : Nat', 'mx : Nat', 'mn : Nat'],
          obligation='open Scales.Aperture\ntheorem genAdjBranch_eq (cfg : Cfg) (a : AS) (avg : Rat) :\n    a.decision cfg avg =\n      (match genAdjBranch (apLoad cfg a.hs.size avg) cfg.maxLoad cfg.minLoad (!a.idle.isEmpty) a.hs.size\n          cfg.maxSize cfg.minSize with\n       | 0 => .expand\n       | 1 => .contract\n       | _ => .stay) := by\n  unfold AS.decision genAdjBranch\n  by_cases h1 : cfg.maxLoad ≤ apLoad cfg a.hs.size avg <;> by_cases h2 : a.idle = [] <;>\n    by_cases h3 : a.hs.size < cfg.maxSize <;> by_cases h4 : apLoad cfg a.hs.size avg ≤ cfg.minLoad <;>\n    by_cases h5 : cfg.minSize < a.hs.size <;> simp [h1, h2, h3, h4, h5, ge_iff_le, gt_iff_lt]\n'),
+    # `MonoClock.Sample`: the value it returns and the `_last` it leaves, translated from the current source (over the
+    # integers: the translator types numerals as Int); the obligation: both are the model's `MonoClock.sample`
+    dict(name='genSampleRet', file='scales/varz.py', func='MonoClock.Sample', kind='return-int',
+         varmap={'time.time()': 'now', 'self._last': 'last'}, params=['last', 'now'], obligation=''),
+    dict(name='genSampleLast', file='scales/varz.py', func='MonoClock.Sample', kind='final', var='self._last',
+         varmap={'time.time()': 'now', 'self._last': 'last'}, params=['last', 'now'], obligation=_SAMPLE_OBLIGATION),
 ]
 TRUSTED = ['harness channels / server set standing for the next sinks and the provider (harness/lbrun.py)',
            'random.choice / random.randint results are recorded from the run and passed to the model',
-           'the EMA value of each _AdjustAperture call is taken from the real Ema.Update (exact rational of the float); '
-           'math.exp and float division are not modelled',
+           'the EMA value of each _AdjustAperture call is taken from the real Ema.Update (exact rational of the float) and '
+           'the decay weight from the real math.exp call inside it (scales.varz.math is a logging proxy); math.exp and '
+           'float arithmetic are not modelled: the model checks one exact EMA step against the recorded value within '
+           '1e-9 (relative) and that the weight is one exp(-dt/window) can take for its own time delta dt',
+           'scales.varz.time is a harness clock (virtual loop clock + an offset the script decreases): the wall-clock '
+           'readings of MonoClock are recorded and passed to the model, whose own MonoClock predicts every time delta',
            '_ScheduleNextJitter is replaced by a no-op: the harness starts each jitter round itself']
 ASSUMPTIONS = ['decisions whose load is within 1e-9 of a bound (but not on it) end the script (float division is not '
                'modelled); they are counted under the tag near-bound-stop',
                'the settles-inside-the-band clause is proved for the idealised EMA, min_size >= 1 and '
                '2*min_load < max_load (C06_settles_partial); C06_oscillation_counterexample shows it fails otherwise',
-               'at most one jitter round is in flight (the implementation reschedules only when a round has ended)']
+               'at most one jitter round is in flight (the implementation reschedules only when a round has ended)',
+               'wf6: the recorded decay weights lie where exp(-dt/window) can lie for the time deltas of the model '
+               '(>= 0; <= 1 for dt >= 0; >= 1 for dt <= 0) and each recorded EMA value is within 1e-9 (relative) of the '
+               'exact step from the previous recorded value (C06_weights_in_unit_interval, C06_model_satisfies_spec)']
 RULE = ('scripts from the seeded generator over a grid of (min_size, max_size, min_load, max_load, member count), '
-        'traffic hovering around stepped outstanding levels with virtual time passing, member failures, joins/leaves, '
+        'traffic hovering around stepped outstanding levels with virtual time passing and (half of the scripts) the wall '
+        'clock stepping backwards 1 ms … 30 s one to four times, member failures, joins/leaves, '
         'slow and failing opens, jitter rounds; non-trivial = reaches an expansion, a contraction, a jitter round, a '
         'closed channel, a failed open or a removal')
 
